@@ -39,4 +39,24 @@ Section C01.
     destruct (approved_all_nodes simple astr mredir cdres injrisk rulematch c1 t Hw1 n d Hd) as [c2 [Hm2 Hw2]].
     exists c2. split; [congruence|exact Hw2].
   Qed.
+
+  (* a word with expansions whose text has a "$((" that is not closed by "))" (bash runs it as a
+     command substitution, the parser reports arithmetic) is never approved, in any position *)
+  Lemma unclosed_arith_asks c b k ss fs ks : let t := T k ss fs ks in
+    nonempty (children "parts" t) = true -> unclosed_arith (attr_d "value" t) = true ->
+    In Ask (r_wp (ev t) b c).
+  Proof.
+    intros t Hp Hu. subst t. rewrite wp_unfold. rewrite Hp, Hu. cbn [andb app]. left. reflexivity.
+  Qed.
+
+  Lemma unclosed_arith_cmd_asks c ss fs ks : let t := T $"arith-cmd" ss fs ks in
+    unclosed_arith (attr_d "raw_content" t) = true -> walk c t <> Allow.
+  Proof.
+    intros t Hu. subst t. rewrite walk_arithcmd, Hu. intro H. apply combine_allow in H.
+    rewrite Forall_forall in H. specialize (H Ask). assert (Hin : In Ask
+      (flat_map (fun e => r_exp (ev e) c) (children "expression" (T $"arith-cmd" ss fs ks)) ++ [Ask] ++
+       redirs_of simple astr mredir cdres injrisk rulematch c (T $"arith-cmd" ss fs ks))).
+    { apply in_or_app. right. left. reflexivity. }
+    specialize (H Hin). discriminate.
+  Qed.
 End C01.
